@@ -466,7 +466,7 @@ theorem auto_progress (hF : FragL m rk R) (s : St) (hwork : p.absence.contains s
   have hact : activeAt p (updated m s).time = true := by
     show activeAt p s.time = true
     unfold activeAt; rw [hwork]; rfl
-  rw [if_pos hact] at h
+  rw [if_pos hact, if_pos hact] at h
   apply phi_drop hF s ht hu
   · rw [Auto.iter_eq]; exact h.1
   · rw [Auto.iter_eq, h.2]
